@@ -2,6 +2,7 @@ import GoProbeModel.Spec.C15
 import GoProbeModel.Gen.TimeBin
 import GoProbeModel.Gen.Distributed
 import GoProbeModel.Gen.Facts
+import GoProbeModel.Model.C15Querier
 
 /-!
 C15 — hand-written model of the code AS WRITTEN (after the three `fix:` commits):
@@ -14,6 +15,10 @@ Regenerated from the source on every run and used here: `Gen.Distributed.maxLimi
 `Gen.TimeBin.BinTimestamp`, `Gen.TimeBin.DefaultTimeResolution`, and the field-wise `+=` programs
 of `workload.Stats.Add` / `types.Counters.Add` (`Gen.Facts.c15_*_add_{lhs,rhs}`) which are
 *interpreted* by `statsAdd` / `ctrAdd`.
+
+The querier's fan-out in front of the aggregation (`APIClientQuerier.Query`, cases `fan` / `run`) is
+the transition system of `Model/C15Querier.lean` (runner count regenerated: `Gen.Querier.numRunners`);
+`handle` runs its concrete scheduler `Fan.arrival` to obtain one arrival order of the hosts' replies.
 
 Go maps are association lists in insertion order; whatever the code reads out of a map is sorted
 by the code itself (`ToRowsSortedTo`, `sort.Strings`) or by `observe` (host statuses, which stay a
@@ -272,7 +277,43 @@ def handlePerms (cfg : Cfg) (l : List Reply) (perms : List (List Nat)) : String 
     "|".intercalate <| (List.range outs.length).zip outs |>.map fun (i, b, s, p) =>
       "B" ++ (if i ≠ 0 ∧ b == b0 then "=" else b) ++ "#S" ++ (if s == b then "=" else s) ++ "#P" ++ p
 
+/-! ### the querier in front of the aggregation (`fan`, `run`) -/
+
+/-- `default`: `apiclient.New` sets `2 * runtime.NumCPU()` (pinned by the fact
+    `c15_querier_default_mc`), a machine-dependent value ≥ 2; the model runs with 2 — by
+    `Fan.arrival_perm` / `distributed_result_determined` the observable output is the same for
+    every value -/
+def mcValue : Option Int → Int
+  | some v => v
+  | none => 2
+
+/-- `Query(ctx, hosts, args)` drained by a consumer: `closed;<sorted entries>` -/
+def handleFan (mc : Option Int) (l : List Reply) : String :=
+  let s := Fan.runSched l (mcValue mc)
+  (if s.closed && s.buf.isEmpty then "closed;" else "hang;") ++
+    Wire.showList (insSort strLe (s.recvd.map fanEntry))
+
+def replyHostLe (a b : Reply) : Bool := decide (a.host ≤ b.host)
+
+/-- `QueryRunner.Run`: the string resolver sorts the host names (`h00` < `h01` < …: the order of
+    the ids), `Args.Prepare` builds the statement — without a time label it never takes over
+    `Args.SortAscending`, the order is descending —, `Query` fans out, `aggregateResults` merges
+    what arrives -/
+def handleRun (mc : Option Int) (cfg : Cfg) (l : List Reply) : String :=
+  if ¬ (l.map Reply.host).Nodup then "bad-args" else
+  if l.isEmpty then "err:no-hosts" else      -- `run` refuses an empty `QueryHosts` before anything else
+  let hosts := insSort replyHostLe l
+  showResult (runBatch { cfg with asc := false } (Fan.arrival hosts (mcValue mc)))
+
 def handle : List String → String
+  | ["fan", mc, replies] =>
+    match parseMc mc, parseReplies replies with
+    | some mc, some l => handleFan mc l
+    | _, _ => "bad-args"
+  | ["run", mc, cfg, replies] =>
+    match parseMc mc, parseCfg cfg, parseReplies replies with
+    | some mc, some cfg, some l => handleRun mc cfg l
+    | _, _, _ => "bad-args"
   | ["agg", cfg, replies, perms] =>
     match parseCfg cfg, parseReplies replies, parsePerms perms with
     | some cfg, some l, some perms => handlePerms cfg l perms
